@@ -5,6 +5,7 @@ mod proto;
 mod rng;
 mod run;
 mod c05;
+pub mod filters;
 
 use std::io::Write;
 
